@@ -3,7 +3,7 @@
 (* records every step (who acted, what the adversary sent, the delivery    *)
 (* order, the projected view of the acting member after the step); a       *)
 (* complete run is written as one JSON document.                           *)
-EXTENDS Gjkr, Json, CSV, IOUtils
+EXTENDS MC_Gjkr, Json, CSV, IOUtils
 
 VARIABLE hist
 gvars == <<vars, hist>>
@@ -26,7 +26,7 @@ StepRec ==
     LET who == pos[2]
         nm == StageName
     IN IF IsAdvStage(pos[1])
-       THEN [a |-> nm, m |-> who, msgs |-> [i \in DOMAIN out'[who] |-> MsgJ(out'[who][i])]]
+       THEN [a |-> nm, m |-> who, dead |-> Dead(who), msgs |-> [i \in DOMAIN out'[who] |-> MsgJ(out'[who][i])]]
        ELSE [a |-> nm, m |-> who, view |-> View(mem'[who]), ord |-> dord',
              msgs |-> [i \in DOMAIN out'[who] |-> MsgJ(out'[who][i])]]
 
